@@ -302,7 +302,10 @@ Stmts(fi, i) ==
     [] fi.f = "union" -> <<Assign(N("v", i), IF fi.v = 1 THEN Union(Dict(<<P("a")>>, <<P("m")>>), Dict(<<P("b")>>, <<P("q")>>))
                                              ELSE Union(Dict(<<P("a"), P("b")>>, <<P("m"), P("m")>>), Dict(<<P("a")>>, <<P("z")>>)))>>
     [] fi.f = "list" -> <<Assign(N("v", i), List(SubSeq(<<P("z"), P("a"), P("m")>>, 1, fi.n), fi.tc, fi.ml))>>
-    [] fi.f = "subinc" -> SubStmts(fi.pat, i) \o <<Assign(N("v", i), Id("S"))>>
+    [] fi.f = "subinc" ->
+         LET has(l) == \E j \in 1..Len(fi.pat) : fi.pat[j] \in (IF l = "A" THEN {"A", "AB", "BA"} ELSE {"B", "AB", "BA"}) IN
+         SubStmts(fi.pat, i) \o <<Assign(N("v", i), List(<<Id("S")>> \o (IF has("A") THEN <<Id("A_val")>> ELSE <<>>)
+                                                                      \o (IF has("B") THEN <<Id("B_val")>> ELSE <<>>), FALSE, FALSE))>>
     [] fi.f = "comment" ->
         (CASE fi.place = "trailing" -> <<[Assign(N("v", i), P("a")) EXCEPT !.tcom = TRUE]>>
            [] fi.place = "before"   -> <<Cmt, Assign(N("v", i), P("a"))>>
